@@ -22,8 +22,8 @@ TASK_TIMEOUT_S = int(os.environ.get("PYVC_TASK_TIMEOUT_S", "900"))
 
 
 class Task:
-    def __init__(self, name, harness, setup=None, allow_raise=None, bounded=None,
-                 tier="quick", expect_loops=False, note=None):
+    def __init__(self, name, harness=None, setup=None, allow_raise=None, bounded=None,
+                 tier="quick", expect_loops=False, note=None, native=None):
         self.name = name
         self.harness = harness
         self.setup = setup
@@ -31,6 +31,10 @@ class Task:
         self.bounded = bounded  # str describing the bound if this is a bounded stand-in
         self.tier = tier  # 'quick' tasks run in both tiers, 'thorough' only there
         self.note = note
+        # native: name of a driver under replay/drivers run under /venv/bin/python against
+        # the real code (a BOUNDED run-time stand-in, never counted as proved): it must
+        # print {"obligations": [{"name", "ok", "detail"}], "cases": n}
+        self.native = native
 
 
 def _run_one(args):
@@ -41,6 +45,20 @@ def _run_one(args):
 
         mod = importlib.import_module(modname)
         task = mod.TASKS[idx]
+        if task.native:
+            rep = run_replay_driver(task.native, dict(mode="check", task=task.name, seed=int(os.environ.get("VERIF_SEED", "0")),
+                                                       tier=os.environ.get("VERIF_TIER", "quick")), timeout=TASK_TIMEOUT_S)
+            obs = []
+            if not rep or "obligations" not in rep:
+                return dict(task=task.name, crash=f"native stand-in {task.native} gave no result: {str(rep)[:800]}", obligations=[], errors=[], paths=0,
+                            seconds=time.time() - t0, functions=[], lib_used=[], raised={}, covered=[], notes=[], loops=[], houdini_kept={},
+                            bounded=task.bounded, failed_detail={}, solver_time=0.0, queries=0)
+            for o in rep["obligations"]:
+                obs.append(dict(name=o["name"], verdict="discharged" if o["ok"] else "failed", backend="native-bounded", vcs=int(o.get("cases", 1)),
+                                seconds=0.0, detail=o.get("detail"), model=o.get("witness")))
+            return dict(task=task.name, paths=int(rep.get("cases", 0)), seconds=round(time.time() - t0, 2), obligations=obs, errors=[], raised={},
+                        covered=[], notes=[rep.get("note", "")], loops=[], houdini_kept={}, functions=[], lib_used=[], bounded=task.bounded or "native run-time stand-in",
+                        failed_detail={}, solver_time=0.0, queries=0)
         res = engine.run_task(task.name, task.harness, root=REPO, setup=task.setup,
                               allow_raise=task.allow_raise, both=both)
         d = res.to_json()
@@ -62,6 +80,30 @@ def _run_one(args):
                     obligations=[], errors=[], paths=0, seconds=time.time() - t0, functions=[], lib_used=[],
                     raised={}, covered=[], notes=[], loops=[], houdini_kept={}, bounded=None, failed_detail={},
                     solver_time=0.0, queries=0)
+
+
+def lean_backed(E, name, lean_file, theorem):
+    """An obligation discharged by the Lean kernel instead of an SMT solver:
+    the theorem must be present (no `sorry`) in /verif/lemmas/<file>; the file is
+    compiled by MANIFEST.setup_cmd-independent thorough runs (PYVC_RUN_LEAN=1 or
+    VERIF_TIER=thorough); quick runs rely on the checked-in text + its hash."""
+    import hashlib
+
+    path = os.path.join(VERIF, "lemmas", lean_file)
+    try:
+        txt = open(path).read()
+    except OSError:
+        E.st.undecided(name, f"lemma file {lean_file} missing")
+        return
+    if f"theorem {theorem}" not in txt or "sorry" in txt:
+        E.st.undecided(name, f"theorem {theorem} missing or file contains sorry")
+        return
+    if os.environ.get("VERIF_TIER") == "thorough" or os.environ.get("PYVC_RUN_LEAN"):
+        r = subprocess.run(["lean", path], capture_output=True, text=True, timeout=1200)
+        if r.returncode != 0:
+            E.st.undecided(name, "lean rejected the lemma file: " + (r.stdout + r.stderr)[-400:])
+            return
+    E.st.ok(name, backend=f"lean:{theorem}@{hashlib.sha256(txt.encode()).hexdigest()[:12]}")
 
 
 def load_known_findings():
